@@ -53,7 +53,8 @@ type runner struct {
 	maxIDEver uint64
 	recovers  []recoverRec // every Recover the recorded run started on a recoverable root
 
-	recStarted, recDone uint64 // Recover calls started / finished (historical readers)
+	recStarted, recDone  uint64 // Recover calls started / finished (historical readers)
+	recoverWhileIndexing bool   // a Recover ran while the initial index run was unfinished
 }
 
 type recoverRec struct {
@@ -424,11 +425,15 @@ func (rn *runner) update(pst, child *state) *simcore.Violation {
 	if v != nil {
 		return v
 	}
-	if err != nil && rn.p.K.Indexing && rn.p.K.TrienodeHistory >= 0 && strings.Contains(err.Error(), "history indexing is out of order") {
+	if err != nil && rn.p.K.Indexing && rn.p.K.TrienodeHistory >= 0 && strings.Contains(err.Error(), "history indexing is out of order") && !strings.Contains(err.Error(), "last: null") {
 		return rn.keyed("update-failed", "indexer-wedged-by-elementless-history", true,
 			"Update(#%d on #%d) failed: %v. An earlier trienode history changed nothing but the account trie's root node (path \"\", skipped by the index scheme), so it had no index elements; batchIndexer.finish returns early for pending==0 without advancing the index metadata, and indexSingle then refuses every later history", child.idx, pst.idx, err)
 	}
-	if capOrphan && err != nil {
+	if err != nil && rn.p.K.Indexing && strings.Contains(err.Error(), "history indexing is out of order, last: null") {
+		return rn.keyed("update-failed", "indexer-rollback-to-genesis-loses-metadata", true,
+			"Update(#%d on #%d) failed: %v. A Recover down to state id 0 unindexed history 1, for which unindexing deletes the index metadata altogether; indexSingle refuses to index history 1 again without metadata, so no state can be flattened any more", child.idx, pst.idx, err)
+	}
+	if capOrphan && err != nil && outcome != updReject {
 		return rn.finding("flatten", "Update(#%d on #%d) had to flatten a layer that was a fork child of an earlier flattened layer (still in the layer tree, parent pointer left on the stale pre-flatten layer) and failed: %v", child.idx, pst.idx, err)
 	}
 	if len(flat) > 0 {
@@ -478,6 +483,14 @@ func (rn *runner) commit(sel int) *simcore.Violation {
 	rn.mu.Unlock()
 	if v != nil {
 		return v
+	}
+	if err != nil && rn.p.K.Indexing && strings.Contains(err.Error(), "history indexing is out of order") {
+		if strings.Contains(err.Error(), "last: null") {
+			return rn.keyed("commit-failed", "indexer-rollback-to-genesis-loses-metadata", true, "Commit(#%d) failed: %v (after a Recover down to state id 0 the index metadata is deleted and history 1 can never be indexed again)", st.idx, err)
+		}
+		if rn.p.K.TrienodeHistory >= 0 {
+			return rn.keyed("commit-failed", "indexer-wedged-by-elementless-history", true, "Commit(#%d) failed: %v (an earlier trienode history that changed only the account trie root had no index elements; the index metadata was not advanced)", st.idx, err)
+		}
 	}
 	if capOrphan && err != nil {
 		return rn.finding("flatten", "Commit(#%d), a live layer that was a fork child of an earlier flattened layer (parent pointer left on the stale pre-flatten layer), failed: %v", st.idx, err)
@@ -864,7 +877,7 @@ func (rn *runner) read(actor string, rd Read, certain bool) *simcore.Violation {
 			return simcore.Violf(oracle, "%s: %s = %x, the state holds %x (the returned value belongs to: %s)", where, o.what, o.got, o.want, who)
 		}
 	}
-	if isIter && orphan && live {
+	if isIter && orphan && mustSucceed {
 		// iterating a fork child of a flattened layer walks the stale pre-flatten
 		// objects: whatever goes wrong there belongs to the recorded finding
 		bad := itErr != nil || len(itGot) != len(itWant)
